@@ -32,6 +32,12 @@ Theorem TIE_exhaust_flag_sound :
 Proof. exact gen_exhaust_flag_sound. Qed.
 Print Assumptions TIE_exhaust_flag_sound.
 
+Theorem TIE_exhaust_flag_complete :
+  forall (e : GA.id_expr) (t : string),
+    fst (G.exhaust_tensor e t) = e -> snd (G.exhaust_tensor e t) = true.
+Proof. exact gen_exhaust_flag_complete. Qed.
+Print Assumptions TIE_exhaust_flag_complete.
+
 (** C01_exhaust_sound carried over to the regenerated function *)
 Theorem TIE_exhaust_sound_gen :
   forall (O : ringops), ring_ok O ->
@@ -234,3 +240,23 @@ Theorem TIE_index_names_summary :
     <-> In k (TV.gen.Desugar.index_names e).
 Proof. intros ord_set H. exact (gen_index_names_summary ord_set (fun _ => 0%Z) H). Qed.
 Print Assumptions TIE_index_names_summary.
+
+Theorem TIE_assignment_index_participants_equiv :
+  forall (ord_set : list string -> list string) (fid : F -> Z)
+         (n : string) (idx : list string) (e : GenVariables_equiv.GD.ex_expr),
+    GenVariables_equiv.GD.ex_assignment_index_participants ord_set
+      (GenVariables_equiv.GD.ExAssignment (GenVariables_equiv.GD.ExTensor n idx) e)
+    = lift_ip (EA.assignment_index_participants (fun _ l => ord_set l)
+                 (EA.Assignment (EA.TRef n idx) (convA fid e))).
+Proof. exact gen_assignment_index_participants_equiv. Qed.
+Print Assumptions TIE_assignment_index_participants_equiv.
+
+Theorem TIE_assignment_index_names_summary :
+  forall (ord_set : list string -> list string), (forall l, Permutation (ord_set l) l) ->
+  forall (n : string) (idx : list string) (e : GenVariables_equiv.GD.ex_expr) (k : string),
+    In k (map fst (GenVariables_equiv.GD.ex_assignment_index_participants ord_set
+                     (GenVariables_equiv.GD.ExAssignment (GenVariables_equiv.GD.ExTensor n idx) e)))
+    <-> In k (TV.gen.Desugar.assignment_index_names
+                (GenVariables_equiv.GD.ExAssignment (GenVariables_equiv.GD.ExTensor n idx) e)).
+Proof. intros ord_set H. exact (gen_assignment_index_names_summary ord_set (fun _ => 0%Z) H). Qed.
+Print Assumptions TIE_assignment_index_names_summary.
